@@ -14,6 +14,7 @@ limitations under the License.
 package config
 
 import (
+	"errors"
 	"fmt"
 	"reflect"
 	"strconv"
@@ -111,7 +112,11 @@ func decodeString(f reflect.Type, t reflect.Type, data any) (any, error) {
 		// Check for simple integer values and treat them
 		// as milliseconds
 		if val, err := strconv.Atoi(dataString); err == nil {
-			return time.Duration(val) * time.Millisecond, nil
+			d := time.Duration(val) * time.Millisecond
+			if d/time.Millisecond != time.Duration(val) {
+				return nil, invalidError(errors.New("overflow"), "duration", dataString)
+			}
+			return d, nil
 		}
 
 		// Convert it by parsing
